@@ -49,7 +49,7 @@ def tu(g, cases, dflt=()):
         else:
             tname[t] = 't%d' % i
             o.append('constexpr char_term t%d(char(%d), %d, associativity(%d));' % (i, b if b < 128 else b - 256, g.tprec.get(t, 0), g.tassoc.get(t, 0)))
-    tid = {t: i for i, t in enumerate(g.ts)}
+    tid = {t: g.ts.index(t) for t in g.ts}      # (a name listed twice denotes its FIRST declaration)
     rl = []
     for ri, (l, rhs, prec) in enumerate(g.rules):
         args = ', '.join('n%d' % ntid[x] if x in ntid else tname[x] for x in rhs)
@@ -85,6 +85,10 @@ def tu(g, cases, dflt=()):
         o.append('  { static const char d[] = %s;' % L)
         o.append('    pr(%d, "cstring,ctobj", run(cstring_buffer(d), %s, %s)); pr(%d, "cstring,rtobj", runp(*q, cstring_buffer(d), %s, %s));' % (i, ws, nl, i, ws, nl))
         o.append('    pr(%d, "string,ctobj", run(string_buffer(std::string(d, %d)), %s, %s)); pr(%d, "string,rtobj", runp(*q, string_buffer(std::string(d, %d)), %s, %s));' % (i, n, ws, nl, i, n, ws, nl))
+        # a string_buffer that was MOVED (its source overwritten) and one that was COPIED (its source destroyed) before use:
+        # a buffer kept in a container or returned from a function holds the same text
+        o.append('    { string_buffer s0(std::string(d, %d)); string_buffer s1(std::move(s0)); s0 = string_buffer(std::string(%d, char(0x7f))); pr(%d, "string-moved,ctobj", run(s1, %s, %s));' % (n, max(n, 1), i, ws, nl))
+        o.append('      auto* s2 = new string_buffer(std::string(d, %d)); string_buffer s3(*s2); delete s2; std::string junk(%d, char(0x7f)); pr(%d, "string-copied,rtobj", runp(*q, s3, %s, %s)); (void)junk; }' % (n, max(n, 1), i, ws, nl))
         # the view is a window into a LARGER buffer: the text is followed by whitespace and a second copy of itself
         o.append('    static const char e[] = %s;' % lit(list(c['bytes']) + [32, 10] + list(c['bytes']) + [32]))
         o.append('    pr(%d, "view,ctobj", run(string_view_buffer(std::string_view(e, %d)), %s, %s)); pr(%d, "view,rtobj", runp(*q, string_view_buffer(std::string_view(e, %d)), %s, %s)); }' % (i, n, ws, nl, i, n, ws, nl))
@@ -170,6 +174,10 @@ def lex_tu(terms, shape_rules, cases):
         o.append('  { static const char d[] = %s;' % L)
         o.append('    pr(%d, "cstring,ctobj", run(cstring_buffer(d), %s, %s)); pr(%d, "cstring,rtobj", runp(*q, cstring_buffer(d), %s, %s));' % (i, ws, nl, i, ws, nl))
         o.append('    pr(%d, "string,ctobj", run(string_buffer(std::string(d, %d)), %s, %s)); pr(%d, "string,rtobj", runp(*q, string_buffer(std::string(d, %d)), %s, %s));' % (i, n, ws, nl, i, n, ws, nl))
+        # a string_buffer that was MOVED (its source overwritten) and one that was COPIED (its source destroyed) before use:
+        # a buffer kept in a container or returned from a function holds the same text
+        o.append('    { string_buffer s0(std::string(d, %d)); string_buffer s1(std::move(s0)); s0 = string_buffer(std::string(%d, char(0x7f))); pr(%d, "string-moved,ctobj", run(s1, %s, %s));' % (n, max(n, 1), i, ws, nl))
+        o.append('      auto* s2 = new string_buffer(std::string(d, %d)); string_buffer s3(*s2); delete s2; std::string junk(%d, char(0x7f)); pr(%d, "string-copied,rtobj", runp(*q, s3, %s, %s)); (void)junk; }' % (n, max(n, 1), i, ws, nl))
         o.append('    static const char e[] = %s;' % lit(list(c['bytes']) + [32, 10] + list(c['bytes']) + [32]))
         o.append('    pr(%d, "view,ctobj", run(string_view_buffer(std::string_view(e, %d)), %s, %s)); pr(%d, "view,rtobj", runp(*q, string_view_buffer(std::string_view(e, %d)), %s, %s)); }' % (i, n, ws, nl, i, n, ws, nl))
     o.append('  return 0; }')
